@@ -52,6 +52,10 @@ def directed_char():
     h.append(dict(kind="chist", objs=[dict(len=4, allow=2, requireSets=[o("abc"), o("xyz")], excludeChars=o("ab")), dict(len=4, allow=2)],
                   steps=[call(0), dict(op="share", obj=1, **{"from": 0}), call(1), dict(op="set", obj=0, field="excludeChars", cps=[]), call(0), call(1)],
                   maxTrials=0, failRateOne=1, tag="shared-slice"))
+    # two recipes use overlapping sub-slices of one caller-owned table (spare capacity behind the shorter one)
+    h.append(dict(kind="chist", objs=[dict(len=3, allow=2, allowChars=o("+-")), dict(len=3, allow=2)],
+                  steps=[dict(op="sharetable", obj=0, idx=2, sets=[o("abc"), o("123"), o("XYZ")], **{"from": 1}), call(1), call(0), call(1), call(0)],
+                  maxTrials=0, failRateOne=1, tag="shared-table"))
     # field changes must be honoured by the very next call
     h.append(dict(kind="chist", objs=[dict(len=5, allow=4)],
                   steps=[call(0), dict(op="set", obj=0, field="allow", ival=2), call(0), dict(op="set", obj=0, field="len", ival=2), call(0),
@@ -62,6 +66,8 @@ def directed_char():
 
 def wl_history(rng, length):
     words = [o(w) for w in rng.sample(wlfam.CAPITALISABLE + wlfam.UNCAP, rng.randint(2, 6))]
+    if rng.random() < 0.25:
+        words.append([])     # an empty entry is legal input; whatever Generate does with it, the list itself must stay as it is
     nobj = rng.choice([1, 2])
     objs = [dict(words=[], nolist=0, len=rng.randint(1, 4), cap=rng.choice(wlfam.SCHEMES), sep="char", sepChar=o(rng.choice(["", "-", "¡"]))) for _ in range(nobj)]
     steps = []
